@@ -195,12 +195,21 @@ class Unit:
             clash = False
             for d in ps + ls:
                 new = ren.get(d['id'], d.get('name'))
-                final.setdefault(new, set()).add(d.get('name'))
-            for new, olds in final.items():
-                if len(olds) > 1:
+                final.setdefault(new, []).append(d['id'])
+            # (the confirmed function may itself declare one name in several scopes: as many declarations may share it)
+            mult = {}
+            for n_, _t in list(alt['params']) + list(alt['locals']):
+                mult[n_] = mult.get(n_, 0) + 1
+            for new, ids in final.items():
+                if len(ids) > max(1, mult.get(new, 1)) or (len(ids) > 1 and any(i not in ren for i in ids) and
+                                                            len({d.get('name') for d in ps + ls if d['id'] in ids}) > 1 and mult.get(new, 1) < len(ids)):
                     clash = True
             if clash:
-                continue
+                # the parameters at least: they are matched by position and type alone
+                ren = {i: n for i, n in ren.items() if i in {q['id'] for q in ps}}
+                names_now = {d.get('name') for d in ls}
+                if not ren or any(n in names_now for n in ren.values()):
+                    continue
             back = {}
             for x in walk(f):
                 k = x.get('kind')
